@@ -12,6 +12,10 @@ from ..runner import Part
 
 PROP = "C06"
 RULE = (
+    "[part rule_lists: P(a,b) -> X(A,B;o) -> C(i) with units m/km/mm/cm and an extra key; X.o derived from X's inputs, or "
+    "X.A's request derived from X.o, by rule lists of 1-3 rules (full transfer, field transfer, values); every slot must end "
+    "with exactly the metadata its declaration / rule list gives and every initial pull with the producer's value in the "
+    "pulling input's units] "
     "shapes: 2-4 time components with start offsets; per input: info given at init | provided later through "
     "exchange_infos | FromOutput rule | provided after another input's info arrived, pulled initially or not; "
     "per output: info at init | later | FromInput rule | after an input's info, data available immediately or "
@@ -375,9 +379,182 @@ def check_offset_delay(spec, ctx):
             ctx.violation(f"acyclic-{where}-fails:{outcome}", f"{(msg or '')[:200]} | chain {chain} producer start {spec['comps'][0]['start']} order {spec['order']}")
 
 
+# ------------------------------------------------------------------ contents of rule-derived metadata
+LEN_UNITS = ["m", "km", "mm", "cm"]
+_RC = None
+
+
+def _rc_class():
+    global _RC  # pylint: disable=global-statement
+    if _RC:
+        return _RC
+    import finam as fm
+
+    def rule(r):
+        if r[0] == "in":
+            return fm.tools.FromInput(r[1], r[2] or None)
+        if r[0] == "out":
+            return fm.tools.FromOutput(r[1], r[2] or None)
+        return fm.tools.FromValue(r[1], r[2])
+
+    class RC(fm.TimeComponent):
+        """ins: {name: {"units": u|None, "foo": v|None} | {"rules": [...]}}, outs: {name: {"units", "foo", "value"} | {"rules", "value"}}"""
+
+        def __init__(self, name, ins, outs):
+            super().__init__()
+            self._name = name
+            self.ins, self.outs = ins, outs
+            self._time = hs.T0
+            self.calls = 0
+
+        def _next_time(self):
+            return self.time + timedelta(minutes=1)
+
+        def _initialize(self):
+            ir, orl = {}, {}
+            for n, d in self.ins.items():
+                if "rules" in d:
+                    self.inputs.add(name=n)
+                    ir[n] = [rule(r) for r in d["rules"]]
+                else:
+                    meta = {"foo": d["foo"]} if d.get("foo") else {}
+                    self.inputs.add(name=n, time=self.time, grid=fm.NoGrid(), units=d["units"], **meta)
+            for n, d in self.outs.items():
+                if "rules" in d:
+                    self.outputs.add(name=n)
+                    orl[n] = [rule(r) for r in d["rules"]]
+                else:
+                    meta = {"foo": d["foo"]} if d.get("foo") else {}
+                    self.outputs.add(name=n, time=self.time, grid=fm.NoGrid(), units=d["units"], **meta)
+            self.create_connector(pull_data=list(self.ins), in_info_rules=ir, out_info_rules=orl)
+
+        def _connect(self, start_time):
+            self.calls += 1
+            if self.calls > 40:
+                raise S.HarnessBound(f"{self.name}: connect called {self.calls} times")
+            self.try_connect(start_time, push_data={n: d["value"] for n, d in self.outs.items()})
+
+        def _validate(self):
+            pass
+
+        def _update(self):
+            self._time = self.next_time
+
+        def _finalize(self):
+            pass
+
+    _RC = RC
+    return RC
+
+
+def _apply(rules, in_infos, out_infos):
+    """reference for a rule list: dict(units=..., foo=...) built rule by rule from *copies* of the sources"""
+    info = {"units": None, "foo": None}
+    for r in rules:
+        if r[0] in ("in", "out"):
+            src = (in_infos if r[0] == "in" else out_infos)[r[1]]
+            if not r[2]:
+                info = dict(src)
+            else:
+                for fld in r[2]:
+                    if fld in ("units", "foo"):
+                        info[fld] = src[fld]
+        elif r[1] in ("units", "foo"):
+            info[r[1]] = r[2]
+    return info
+
+
+def check_rules(case, ctx):
+    """P(a, b) -> X(A, B; o) -> C(i). Either X.o's info is derived from X's inputs by a rule list (mode out), or X.A's
+    request is derived from X.o's info (mode in). After connect every slot must carry exactly the metadata its own
+    declaration / rule list gives - deriving one slot's info must never alter another slot's exchanged info - and every
+    initial pull must deliver the producer's initial value in the units of the pulling input."""
+    import finam as fm
+
+    from .. import h_units as hu
+
+    RC = _rc_class()
+    p_outs = {k: {"units": case["p"][k]["units"], "foo": case["p"][k]["foo"], "value": v} for k, v in (("a", 1500.0), ("b", 7.0))}
+    x_ins = {"A": dict(case["x"]["A"]), "B": dict(case["x"]["B"])}
+    x_outs = {"o": dict(case["x"]["o"], value=42.0)}
+    c_ins = {"i": dict(case["c"])}
+    P, X, C = RC("P", {}, p_outs), RC("X", x_ins, x_outs), RC("C", c_ins, {})
+    comps = {"P": P, "X": X, "C": C}
+    comp = fm.Composition([comps[n] for n in case["order"]], print_log=False)
+    P.outputs["a"] >> X.inputs["A"]
+    P.outputs["b"] >> X.inputs["B"]
+    X.outputs["o"] >> C.inputs["i"]
+    nrules = max(len(d.get("rules", [])) for d in list(x_ins.values()) + list(x_outs.values()))
+    ctx.nontrivial(nrules >= 2)
+    ctx.event(f"mode={case['mode']}:rules={nrules}")
+    info = f" | case {case}"
+    try:
+        comp.connect(hs.T0)
+    except S.HarnessBound as e:
+        ctx.violation("connect-does-not-terminate", str(e) + info)
+        return
+    except fm.FinamCircularCouplingError as e:
+        ctx.violation("acyclic-reported-circular", f"{str(e)[:160]}" + info)
+        return
+    # ---- reference
+    def merged(req, src):  # request fields that are set win, the rest comes from the source
+        return {k: (req.get(k) if req.get(k) is not None else src.get(k)) for k in ("units", "foo")}
+
+    pa, pb = ({"units": p_outs[k]["units"], "foo": p_outs[k]["foo"]} for k in ("a", "b"))
+    if case["mode"] == "out":
+        eA, eB = merged(x_ins["A"], pa), merged(x_ins["B"], pb)
+        eo = _apply(x_outs["o"]["rules"], {"A": eA, "B": eB}, {})
+    else:
+        eo = {"units": x_outs["o"]["units"], "foo": x_outs["o"].get("foo")}
+        reqA = _apply(x_ins["A"]["rules"], {}, {"o": eo})
+        eA, eB = merged(reqA, pa), merged(x_ins["B"], pb)
+    ei = merged(c_ins["i"], eo)
+    U = lambda u: fm.UNITS.Unit(u)  # noqa: E731
+    slots = [("X.A", X.inputs["A"].info, eA), ("X.B", X.inputs["B"].info, eB), ("X.o", X.outputs["o"].info, eo), ("C.i", C.inputs["i"].info, ei),
+             ("P.a", P.outputs["a"].info, pa), ("P.b", P.outputs["b"].info, pb),
+             ("X.connector.in_infos[A]", X.connector.in_infos["A"], eA), ("X.connector.in_infos[B]", X.connector.in_infos["B"], eB)]
+    for name, got, exp in slots:
+        if got.units != U(exp["units"]) or got.meta.get("foo") != exp["foo"]:
+            ctx.violation("rule-derived-metadata", f"{name}: units {got.units!s} foo {got.meta.get('foo')!r}, expected {exp['units']!r} / {exp['foo']!r}" + info)
+            return
+    pulls = [("X.A", X.connector.in_data["A"], 1500.0, pa["units"], eA["units"]), ("X.B", X.connector.in_data["B"], 7.0, pb["units"], eB["units"]),
+             ("C.i", C.connector.in_data["i"], 42.0, eo["units"], ei["units"])]
+    for name, got, v, u0, u1 in pulls:
+        want = v if hu.equivalent(u0, u1) else float(hu.convert(np.array([v]), u0, u1)[0])
+        g = float(np.asarray(got.magnitude).ravel()[0])
+        if got.units != U(u1) or abs(g - want) > 1e-9 * abs(want):
+            ctx.violation("initial-pull-value", f"{name}: initial pull {g} {got.units!s}, the producer's initial value is {v} {u0} = {want} {u1}" + info)
+            return
+
+
+@st.composite
+def rules_case(draw):
+    un = st.sampled_from(LEN_UNITS)
+    foo = st.sampled_from([None, "x", "y"])
+    # the extra key is set on producers and by value rules only (equal keys with different values on both ends of a
+    # link are a metadata conflict, which is C07's subject)
+    slot = lambda: {"units": draw(st.one_of(st.none(), un)), "foo": None}  # noqa: E731
+    mode = draw(st.sampled_from(["out", "out", "in"]))
+    p = {"a": {"units": draw(un), "foo": draw(foo) if mode == "out" else None}, "b": {"units": draw(un), "foo": draw(foo)}}
+    tail = draw(st.lists(st.one_of(
+        st.tuples(st.just("val"), st.just("units"), un).map(list),
+        st.tuples(st.just("val"), st.just("foo"), st.sampled_from(["x", "z"])).map(list),
+        st.just(["in" if mode == "out" else "out", "B" if mode == "out" else "o", ["units"]]),
+    ), max_size=2))
+    if mode == "out":
+        first = ["in", draw(st.sampled_from(["A", "B"])), []]
+        x = {"A": slot(), "B": slot(), "o": {"rules": [first] + tail}}
+        c = slot()
+    else:
+        x = {"A": {"rules": [["out", "o", []]] + tail}, "B": slot(), "o": {"units": draw(un), "foo": draw(foo)}}
+        c = slot()
+    return {"mode": mode, "p": p, "x": x, "c": c, "order": list(draw(st.permutations(["P", "X", "C"])))}
+
+
 def parts():
     return [
         Part("shapes", check, strategy=shape(), budget={"quick": 2500, "thorough": 120000}, fuzz={"thorough": 20000}),
         Part("long_chains", check, strategy=long_chain(), budget={"quick": 60, "thorough": 1500}),
         Part("offset_delay_enum", check_offset_delay, enumerate=enum_offset_delay, exhaustive=True),
+        Part("rule_lists", check_rules, strategy=rules_case(), budget={"quick": 800, "thorough": 20000}),
     ]
